@@ -157,3 +157,23 @@ class Aliasing:
         if isinstance(sl, ast.Tuple):
             return any(self._is_fancy(x) for x in sl.elts)
         return False
+
+
+def shared_mutable_values(fn: ast.AST) -> list[tuple[ast.AST, str]]:
+    """Constructs that put ONE mutable object under many keys / positions: `dict.fromkeys(keys, {})`,
+    `[[]] * n`, `[{}] * n` (and list()/dict()/set() spellings).  Returns [(node, description)]."""
+    def mutable(e: ast.AST) -> bool:
+        if isinstance(e, (ast.Dict, ast.List, ast.Set)):
+            return True
+        if isinstance(e, ast.Call) and isinstance(e.func, ast.Name) and e.func.id in ("dict", "list", "set", "defaultdict", "OrderedDict", "bytearray"):
+            return True
+        return False
+    out = []
+    for n in ast.walk(fn):
+        if isinstance(n, ast.Call) and isinstance(n.func, ast.Attribute) and n.func.attr == "fromkeys" and len(n.args) == 2 and mutable(n.args[1]):
+            out.append((n, f"`{ast.unparse(n)[:70]}` binds every key to the same {type(n.args[1]).__name__.lower()} object"))
+        if isinstance(n, ast.BinOp) and isinstance(n.op, ast.Mult):
+            for seq in (n.left, n.right):
+                if isinstance(seq, ast.List) and len(seq.elts) >= 1 and all(mutable(x) for x in seq.elts):
+                    out.append((n, f"`{ast.unparse(n)[:70]}` repeats one mutable element object"))
+    return out
